@@ -164,7 +164,7 @@ impl Prop for C03 {
     }
     fn components(&self) -> Value {
         json!({"real": ["sentinel-core: EntryBuilder, slot chain, circuit-breaker manager/slot/stat slot, the three breakers, CounterLeapArray, exit handlers, flow slot"],
-               "stub": ["clock (virtual, hook H1)", "getrandom (seeded)", "listener (recording)", "logger (none)"]})
+               "stub": ["clock (virtual, hook H1)", "getrandom (seeded)", "listener (recording)", "logger (a sink that formats every record of the library and discards it)"]})
     }
 
     fn generate(&self, rng: &mut Rng, slot_ns: u64, _avoid: bool) -> Value {
